@@ -306,7 +306,10 @@ fn obtain_lazy(src: &Arc<Source>, j: &J, span: &Span, path: &[Step]) -> Result<H
                 trace::bump(C::lazy_route_get);
                 stat(libcall("get_from_faststr_unchecked", || sonic_rs::get_from_faststr_unchecked(&src.fs, &ptr))?.map_err(|e| perr("get_from_faststr_unchecked", text, e))?)
             }
-            6 | 13 => {
+            // (get_many visits *every* member with a repeated name, not only the first, and fails if a later
+            // one is not a container: that is the multi-path API's own semantics (C11), so documents with
+            // repeated names take another route)
+            6 | 13 if !has_dup_keys(j) => {
                 trace::bump(C::lazy_route_get_many);
                 let mut tree = PointerTree::new();
                 tree.add_path(&[] as &[usize]);
@@ -601,9 +604,11 @@ fn read_lazy(v: &LazyValue<'static>, m: &LM, what: &str) -> Result<(), Violation
                 }
             }
             J::Obj(mm) => {
-                for ((k, cj), cs) in mm.iter().zip(m.span.kids.iter()) {
+                for (k, _) in mm.iter() {
                     let c = v.get(k.as_str()).ok_or_else(|| Violation::new("mismatch/get", format!("{}: get({:?}) is None", what, k)))?;
-                    // first match wins when keys repeat; documents here have no duplicates
+                    // the first member with that name is the one a lookup by key means (as in the DOM)
+                    let first = mm.iter().position(|(kk, _)| kk == k).unwrap();
+                    let (cj, cs) = (&mm[first].1, &m.span.kids[first]);
                     oracle::check_scalars(&c, cj, what)?;
                     if c.as_raw_str() != &m.text[cs.start..cs.end] {
                         return Err(Violation::new("mismatch/child-raw", format!("{}: member {:?} raw {:?} != {:?}", what, k, oracle::truncate(c.as_raw_str()), &m.text[cs.start..cs.end])));
@@ -779,6 +784,14 @@ fn serialize_check(h: &H, what: &str) -> Result<(), Violation> {
     }
 }
 
+fn has_dup_keys(j: &J) -> bool {
+    match j {
+        J::Arr(a) => a.iter().any(has_dup_keys),
+        J::Obj(m) => m.iter().enumerate().any(|(i, (k, v))| m.iter().position(|(kk, _)| kk == k) != Some(i) || has_dup_keys(v)),
+        _ => false,
+    }
+}
+
 fn draw_path(j: &J) -> Vec<Step> {
     let paths = gen::all_paths(j);
     pick(&paths).clone()
@@ -802,6 +815,10 @@ pub fn run() -> SimResult {
     let mut cfg = GenCfg::draw_knobs();
     cfg.max_str = cfg.max_str.min(60);
     cfg.node_budget = cfg.node_budget.min(30);
+    // one run in four: member names may repeat (first match is what a lookup by key means, as in the DOM)
+    if chance(1, 4) {
+        cfg.classes |= gen::CL_DUPKEY;
+    }
     let style = Style::draw_knobs();
     // the source document; numeric- and literal-looking strings on purpose
     let mut j = gen::gen_j(&cfg);
